@@ -41,7 +41,15 @@ type XModel struct {
 	lastBatch       kvdb.Batch
 	// extUtxoCache caches per bucket key-values using version as key
 	extUtxoCache sync.Map // map[string]*LRUCache
+	// tablesMu makes the two look-ups of Get (live table, recycle table) one observation: the
+	// state machine holds it exclusively while one of its batches is written
+	tablesMu sync.RWMutex
 }
+
+// LockTables / UnlockTables bracket the write of a state batch (they move keys between the live
+// table and the recycle table).
+func (s *XModel) LockTables()   { s.tablesMu.Lock() }
+func (s *XModel) UnlockTables() { s.tablesMu.Unlock() }
 
 // NewXuperModel new an instance of XModel
 func NewXModel(sctx *context.StateCtx, stateDB kvdb.Database) (*XModel, error) {
@@ -244,23 +252,22 @@ func (s *XModel) GetFromLedger(txin *protos.TxInputExt) (*kledger.VersionedData,
 // Get get value for specific key, return value with version
 func (s *XModel) Get(bucket string, key []byte) (*kledger.VersionedData, error) {
 	rawKey := makeRawKey(bucket, key)
-	// The live table and the recycle table are read one after the other, without a storage
-	// snapshot, while batches move a key between them: undoing a delete (every walk rolls the
-	// pending transactions back) restores the live entry and removes the recycle mark in one
-	// batch. A reader whose first look-up ran before that batch and whose second ran after it
-	// found the key in neither table and answered "never written" - also through snapshots of
-	// old blocks. A key found in neither table is therefore looked up in the live table once
-	// more before it counts as never written.
+	// The live table and the recycle table are read one after the other and the storage engine
+	// offers no snapshot over both, while batches move a key between them (a delete, the undo of
+	// a delete - every walk rolls the pending transactions back and re-admits them). A reader
+	// whose look-ups straddle such batches found the key in neither table and answered "never
+	// written" - also through snapshots of old blocks; looking a second time at the live table
+	// does not help when the key has been moved back meanwhile (undo, then re-admission of the
+	// delete). Both look-ups therefore run under tablesMu, which batch writers hold exclusively.
+	s.tablesMu.RLock()
 	version, err := s.extUtxoTable.Get(rawKey)
 	if err != nil && kvdb.ErrNotFound(err) {
 		//从回收站Get, 因为这个utxo可能是被删除了，RefTxid需要引用
 		version, err = s.extUtxoDelTable.Get(rawKey)
-		if err != nil && kvdb.ErrNotFound(err) {
-			version, err = s.extUtxoTable.Get(rawKey)
-			if err != nil && kvdb.ErrNotFound(err) {
-				return makeEmptyVersionedData(bucket, key), nil
-			}
-		}
+	}
+	s.tablesMu.RUnlock()
+	if err != nil && kvdb.ErrNotFound(err) {
+		return makeEmptyVersionedData(bucket, key), nil
 	}
 	if err != nil {
 		return nil, err
